@@ -414,51 +414,108 @@ func rulePool(c *Ctx, rule string) {
 			c.R.Add(rule+"a", c.fk(destroy), "put:arg="+an.AP(arg), c.pos(in), ok, ifelse(ok, "only the receiver *Context is put back", "a value other than the context itself is put into the pool"))
 		}
 	})
-	// (b) reset after get
+	// (b) reset after get, (c) the reset covers every field — through helpers: cleared(f, param) = the Context
+	// fields f zeroes on that parameter in its entry block, directly or through a callee
+	ctxS := a.ContextT.Underlying().(*types.Struct)
+	var allFields []string
+	for i := 0; i < ctxS.NumFields(); i++ {
+		allFields = append(allFields, ctxS.Field(i).Name())
+	}
+	cleared := map[*ssa.Function]map[int]map[string]bool{}
+	for changed := true; changed; {
+		changed = false
+		for _, f := range c.libFuncs() {
+			if len(f.Blocks) == 0 {
+				continue
+			}
+			for pi, par := range f.Params {
+				if !isPtrToNamed(par.Type(), a.ContextT) {
+					continue
+				}
+				pap := an.AP(par)
+				set := map[string]bool{}
+				for _, in := range f.Blocks[0].Instrs {
+					if st, ok := in.(*ssa.Store); ok {
+						if fa, ok := st.Addr.(*ssa.FieldAddr); ok && an.AP(fa.X) == pap {
+							if k, isConst := st.Val.(*ssa.Const); isConst && isZeroConst(k) {
+								set[an.FieldName(fa.X.Type(), fa.Field)] = true
+							}
+						}
+					}
+					if call, ok := builtinCall(in, "clear"); ok {
+						if ap := an.AP(call.Args[0]); strings.HasPrefix(ap, pap+".") {
+							set[strings.TrimPrefix(ap, pap+".")] = true
+						}
+					}
+					if call, ok := in.(*ssa.Call); ok {
+						if g := an.StaticCallee(&call.Call); g != nil {
+							for ai, arg := range an.CallArgs(&call.Call) {
+								if an.AP(arg) == pap {
+									for fld := range cleared[g][ai] {
+										set[fld] = true
+									}
+								}
+							}
+						}
+					}
+				}
+				if cleared[f] == nil {
+					cleared[f] = map[int]map[string]bool{}
+				}
+				if len(set) > len(cleared[f][pi]) {
+					cleared[f][pi] = set
+					changed = true
+				}
+			}
+		}
+	}
+	clearsAll := func(g *ssa.Function, pi int) bool {
+		for _, fld := range allFields {
+			if !cleared[g][pi][fld] {
+				return false
+			}
+		}
+		return true
+	}
 	an.AllInstrs(newCtx, func(in ssa.Instruction) {
-		call, ok := calleeNamed(in, "sync.(*Pool).Get")
-		if !ok {
+		if _, ok := calleeNamed(in, "sync.(*Pool).Get"); !ok {
 			return
 		}
-		_ = call
 		got := an.AP(in.(ssa.Value))
 		path := (&an.Query{
 			Target: func(t ssa.Instruction) bool { _, ok := t.(*ssa.Return); return ok },
 			Block: func(t ssa.Instruction) bool {
-				rc, ok := calleeIs(t, reset)
-				return ok && an.AP(rc.Args[0]) == got
+				call, ok := t.(*ssa.Call)
+				if !ok {
+					return false
+				}
+				g := an.StaticCallee(&call.Call)
+				if g == nil {
+					return false
+				}
+				for ai, arg := range an.CallArgs(&call.Call) {
+					if an.AP(arg) == got && clearsAll(g, ai) {
+						return true
+					}
+				}
+				return false
 			},
 		}).Search(an.After(in))
-		o := c.R.Add(rule+"b", c.fk(newCtx), "get-then-reset", c.pos(in), path == nil, ifelse(path == nil, "every path from Get to return resets the value", "a pooled context can be returned without Reset: a request starts with another request's parameters"))
+		o := c.R.Add(rule+"b", c.fk(newCtx), "get-then-reset", c.pos(in), path == nil, ifelse(path == nil, "every path from Get to return resets every field of the value", "a pooled context can be returned without a complete reset: a request starts with another request's parameters"))
 		if path != nil {
 			o.Path = c.P.PathString(path)
 		}
 	})
-	// (c) Reset covers every field
-	ctxS := a.ContextT.Underlying().(*types.Struct)
-	cleared := map[string]bool{}
-	an.AllInstrs(reset, func(in ssa.Instruction) {
-		if st, ok := in.(*ssa.Store); ok {
-			if fa, ok := st.Addr.(*ssa.FieldAddr); ok && an.AP(fa.X) == "recv" {
-				// must store the zero value
-				if k, isConst := st.Val.(*ssa.Const); isConst && isZeroConst(k) {
-					cleared[an.FieldName(fa.X.Type(), fa.Field)] = true
-				}
+	for _, fn := range allFields {
+		okF := cleared[reset][0][fn]
+		var pos = c.P.Pos(reset.Pos())
+		for i := 0; i < ctxS.NumFields(); i++ {
+			if ctxS.Field(i).Name() == fn {
+				pos = c.P.Pos(ctxS.Field(i).Pos())
 			}
 		}
-		if call, ok := builtinCall(in, "clear"); ok {
-			if ap := an.AP(call.Args[0]); strings.HasPrefix(ap, "recv.") {
-				cleared[strings.TrimPrefix(ap, "recv.")] = true
-			}
-		}
-	})
-	for i := 0; i < ctxS.NumFields(); i++ {
-		fn := ctxS.Field(i).Name()
-		c.R.Add(rule+"c", c.fk(reset), "resets:Context."+fn, c.P.Pos(ctxS.Field(i).Pos()), cleared[fn], ifelse(cleared[fn], "field is zeroed or cleared on every Reset", "Context."+fn+" is not reset: it survives into the next request that gets this context from the pool"))
+		c.R.Add(rule+"c", c.fk(reset), "resets:Context."+fn, pos, okF, ifelse(okF, "field is zeroed or cleared on every Reset", "Context."+fn+" is not reset: it survives into the next request that gets this context from the pool"))
 	}
-	// Reset is straight-line: every store executes on every path
-	straight := len(reset.Blocks) == 1
-	c.R.Add(rule+"c", c.fk(reset), "unconditional", c.P.Pos(reset.Pos()), straight, ifelse(straight, "Reset is a single basic block: all clears execute", "Reset has branches: a clear may be skipped (not analysed further)"))
 	// (d) typestate in the ServeHTTP methods
 	for _, k := range []string{"mux.(*Router).ServeHTTP", "mux.(*Group).ServeHTTP"} {
 		f := c.P.MustFunc(k)
@@ -743,4 +800,13 @@ func ruleGlobalsNotSharedIntoInstances(c *Ctx, rule string) {
 			c.R.Add(rule, c.fk(f), "use:"+name+"/not-shared-into-instances", c.pos(in), bad == "", ifelse(bad == "", "read-only, non-escaping use", "the package-level "+name+" is "+bad+": distinct instances now share (and mutate) one object"))
 		})
 	}
+}
+
+func isPtrToNamed(t types.Type, n *types.Named) bool {
+	p, ok := t.(*types.Pointer)
+	if !ok {
+		return false
+	}
+	x, ok := types.Unalias(p.Elem()).(*types.Named)
+	return ok && x.Origin() == n.Origin()
 }
